@@ -23,7 +23,8 @@
          conn, err = newConn(ctx, ...); if err != nil { return }
          trans.conns[key] = conn
          ctx, cancel := context.WithCancel(context.Background())
-         onExit := func() { Lock; if trans.conns[key] == conn { delete(trans.conns, key); cancel() }; Unlock }
+         onExit := func() { Lock; if trans.conns[key] == conn { delete(trans.conns, key) }; Unlock; cancel() }
+                  // before 576bf91 cancel() was inside the if (cfg field fix_cancel = false)
          go conn.Send(ctx, onExit); go conn.Receive(ctx, onExit); return }
      func (trans *Transport) Abort() {
          Lock; conns := trans.conns; trans.conns = make(map); Unlock                             -- LAbortSwap
@@ -32,7 +33,9 @@
      func (c *conn) Transport(ctx, request) (response, err) {
          index := int(atomic.AddInt32(&c.counter, 1) & MASK)                                     -- (part of LGetConn / LDial)
          resultChan := make(chan data, 1)
-         c.store(index, resultChan)                                                              -- LStore
+         c.store(index, resultChan)     // lock; if c.closeErr != nil { unlock; resultChan <- data{Error: closeErr}; return }
+                                        // c.results[index] = resultChan; unlock  (before 8ffdf9e: no closeErr test,
+                                        // cfg field fix_store = false)                                  -- LStore
          select { case <-ctx.Done(): c.delete(index); return nil, ctx.Err()                      -- LCancelDel
                   case c.requests <- data{index, request}:                                       -- LEnqueue
                   case res := <-resultChan: return res.Body, res.Error }                         -- LTake
@@ -52,6 +55,8 @@
          if err != nil { c.Close(err) } }
      func (c *conn) Close(err) {
          c.once.Do(func() { c.onClose(c.Conn); _ = c.Conn.Close() })                             -- LCloseSock
+         lock; if c.closeErr == nil { c.closeErr = err }; unlock          // merged into LCloseSock: a store between the two
+                                                                          // registers an entry that the cleaning below fails
          c.rangeAndClean(func(index, resultChan) { resultChan <- data{Index: index, Error: err} }) }
      func (c *conn) rangeAndClean(f) {
          lock
@@ -66,6 +71,10 @@
    getConn and the AddInt32 that follows are merged into one step (LGetConn when a pooled connection
    is found, LDial when a new one is dialled and its Send and Receive are started): nothing but the
    order of index allocation could tell them apart.
+
+   rpc/udp's store additionally refuses an index that a pending call holds (the caller then draws the next
+   one, 7acbe6f); that is modelled in Model/Mux.v (C09).  Here index collisions are excluded by the guard
+   no_reuse, under which refusing and overwriting never happen.
 
    Environment: the peer answers any index at any time (LPeerReply), or is gone (LPeerGone: it
    closed or reset the connection, or sent something that makes the next read fail: garbage, a
@@ -272,7 +281,14 @@ Definition waiting_at (p : cpc) : option (nat * Z) :=
 Definition started (p : cpc) : bool :=
   match p with CStart | CDone _ => false | _ => true end.
 
-Record cfg := { mask : Z }.
+Record cfg := {
+  mask : Z;
+  fix_cancel : bool;   (* onExit cancels the context of Send and Receive whether or not the connection is still
+                          pooled (576bf91); before: only when it removed the connection from the pool *)
+  fix_store : bool     (* Close records its error under conn.lock before cleaning and store, finding it, fills the
+                          caller's channel with that error instead of registering (8ffdf9e); before: store
+                          registered unconditionally *)
+}.
 
 Definition step (g : cfg) (st : state) (l : label) : option state :=
   match l with
@@ -314,8 +330,12 @@ Definition step (g : cfg) (st : state) (l : label) : option state :=
           match pc cl with
           | CAlloc c i =>
               match nth_error (conns st) c with
-              | Some cn => Some (put_caller k (with_pc (CStored c i) cl)
-                                            (put_conn c (with_tab (a_set Z.eqb i k (ktab cn)) cn) st))
+              | Some cn =>
+                  if fix_store g && ksock cn
+                  then (* c.closeErr != nil: nothing is registered, resultChan <- data{Error: closeErr} *)
+                       Some (put_caller k (with_pc (CStored c i) (with_box (Some RErr) cl)) st)
+                  else Some (put_caller k (with_pc (CStored c i) cl)
+                                        (put_conn c (with_tab (a_set Z.eqb i k (ktab cn)) cn) st))
               | None => None end
           | _ => None end
       | None => None end
@@ -423,7 +443,7 @@ Definition step (g : cfg) (st : state) (l : label) : option state :=
           match nth_error (conns st) c with
           | Some cn =>
               let pooled := match pool st with Some c' => Nat.eqb c' c | None => false end in
-              Some (exit_update w c cn (with_unpooled pooled) (if err then ECloseSock else EDone)
+              Some (exit_update w c cn (with_unpooled (pooled || fix_cancel g)) (if err then ECloseSock else EDone)
                                 (if pooled then set_pool st None else st))
           | None => None end
       | _, _, _ => None end
